@@ -147,13 +147,21 @@ def generate(seed, prop):
     weights = [w[k] for k in names]
     ops = []
     n_plots = 0
+    last_range = None
     for _ in range(n_ops):
         name = rng.choices(names, weights)[0]
         if name == "plot":
             if n_plots >= 2:
                 name = "update_peaks"
             n_plots += 1
-        ops.append(draw_op(rng, name, f, kind, curves, azimuths, fault_rate))
+        o = draw_op(rng, name, f, kind, curves, azimuths, fault_rate)
+        if "range" in o and name != "query":
+            # biased schedule: repeat the range in use (with other kwargs / argument type) so that the
+            # same-range short-circuit and 'only the kwargs changed' paths are exercised
+            if last_range is not None and rng.random() < 0.25:
+                o["range"] = list(last_range)
+            last_range = list(o["range"])
+        ops.append(o)
     if prop == "C12" and not any(o["op"] == "write_read" for o in ops):
         ops.append(draw_op(rng, "write_read", f, kind, curves, azimuths, fault_rate))
     if prop == "C20" and not any(o["op"] == "plot" for o in ops):
